@@ -261,7 +261,6 @@ def _execute(files: list, api: str, sp: str, as_path: bool, edit: list, st: Opti
                         if cut == len(steps):
                             raise Boom()
                         phase = 'exit'
-                obs['swallowed'] = phase == 'body'
             except Boom:
                 obs['boom'] = phase
             except Exception as e:  # noqa: whatever the implementation raises is an observation
@@ -283,6 +282,11 @@ def _execute(files: list, api: str, sp: str, as_path: bool, edit: list, st: Opti
 # --------------------------------------------------------------------------------------------
 # oracle
 
+def _meta_change(b: tuple, a: tuple) -> str:
+    """Which metadata changed - without the values, so that finding texts are reproducible."""
+    return ' and '.join(n for n, x, y in (('st_mtime_ns', b[1], a[1]), ('st_ino', b[2], a[2])) if x != y) + ' changed'
+
+
 def _diff(before: tuple, after: tuple, meta: bool = True) -> list:
     out = []
     bf, bd = before
@@ -295,7 +299,7 @@ def _diff(before: tuple, after: tuple, meta: bool = True) -> list:
         elif bf[p][0] != af[p][0]:
             out.append(f'{p}: bytes {bf[p][0]!r} -> {af[p][0]!r}')
         elif meta and bf[p][1:] != af[p][1:]:
-            out.append(f'{p}: rewritten (mtime_ns/inode {bf[p][1:]} -> {af[p][1:]}), same bytes')
+            out.append(f'{p}: rewritten ({_meta_change(bf[p], af[p])}), same bytes')
     for d in sorted(bd ^ ad):
         out.append(f'directory {d}: ' + ('created' if d in ad else 'deleted'))
     return out
@@ -450,7 +454,7 @@ def _judge(files: list, api: str, sp: str, as_path: bool, edit: list, st: Option
                 bad = True
             elif af[p][1:] != before[0][p][1:]:
                 fail(f'C16/unedited-file-rewritten[{apin}]',
-                     f'{p}: mtime_ns/inode {before[0][p][1:]} -> {af[p][1:]}')
+                     f'{p}: model not changed, bytes identical, but {_meta_change(before[0][p], af[p])}')
                 bad = True
         elif af[p][0] != exp[p]:
             if exp[p].replace(b'\r\n', b'\n') == af[p][0]:
